@@ -1705,6 +1705,7 @@ class Cell(Bucket):
             assert app.server is None
 
             if app.schedule_once and app.evicted:
+                app.release_identity()
                 continue
 
             # Check if placement is feasible.
@@ -1712,6 +1713,7 @@ class Cell(Bucket):
                 _LOGGER.info(
                     'Placement not feasible: %s %r', app.name, app.shape()
                 )
+                app.release_identity()
                 continue
 
             if not self.put(app):
